@@ -1,4 +1,4 @@
-SPECIFICATION Spec
+SPECIFICATION SpecL
 CONSTANTS
   QDen = 100
   CDen = 10
@@ -9,5 +9,5 @@ CONSTANTS
   Cfgs <- GateCfgs
   Kinds <- PlainKind
   Export = FALSE
-INVARIANTS C03_NoBlackout C03_LastUsableNeverGated C04_ChoiceEligible C04_RoutedEligible C10_ClassicIsReference C11_Stable C11_LeaveOnlyIf C11_CapNeverChosen C12_GuardOffIsBaseline
+INVARIANTS L_C03_NoBlackout L_C03_LastUsableNeverGated L_C04_ChoiceEligible L_C04_RoutedEligible L_C10_ClassicIsReference L_C11_Stable L_C11_LeaveOnlyIf L_C11_CapNeverChosen L_C12_GuardOffIsBaseline
 CHECK_DEADLOCK FALSE
